@@ -40,6 +40,7 @@ var uuidFile = regexp.MustCompile(`^[0-9a-f]{8}-[0-9a-f]{4}-[0-9a-f]{4}-[0-9a-f]
 type lab struct {
 	root, dataDir, keyDir string
 	c                     *nutsCrypto.Crypto
+	se                    storage.Engine
 	decoys                []string
 	decoyKeys             []*ecdsa.PrivateKey
 }
@@ -50,7 +51,7 @@ func newLab(t *testing.T) *lab {
 	if err := se.Start(); err != nil {
 		t.Fatal(err)
 	}
-	l := &lab{root: root, dataDir: filepath.Join(root, "data")}
+	l := &lab{root: root, dataDir: filepath.Join(root, "data"), se: se}
 	l.keyDir = filepath.Join(l.dataDir, "crypto")
 	l.c = nutsCrypto.NewCryptoInstance(se)
 	l.c.Config().(*nutsCrypto.Config).Storage = "fs"
